@@ -1009,10 +1009,23 @@ class FortranFile:
             self.set_contents(text_split)
             return True
 
+        def code_point_index(line_no: int, col: int) -> int:
+            # LSP columns count UTF-16 code units: a character outside the Basic
+            # Multilingual Plane takes two
+            line = self.get_line(line_no)
+            if (line is None) or line.isascii():
+                return col
+            units = 0
+            for idx, char in enumerate(line):
+                if units >= col:
+                    return idx
+                units += 2 if ord(char) > 0xFFFF else 1
+            return len(line)
+
         start_line = change_range["start"]["line"]
-        start_col = change_range["start"]["character"]
+        start_col = code_point_index(start_line, change_range["start"]["character"])
         end_line = change_range["end"]["line"]
-        end_col = change_range["end"]["character"]
+        end_col = code_point_index(end_line, change_range["end"]["character"])
 
         # Check for an edit occurring at the very end of the file
         if start_line == self.nLines:
